@@ -1,5 +1,5 @@
 """Per-property wiring: Lean modules and theorems, generated modules, correspondence runs, numeric oracles."""
-import os, sys, json, copy
+import os, sys, json, copy, zlib
 import numpy as np
 HERE = os.path.dirname(os.path.abspath(__file__))
 VERIF = os.path.dirname(HERE)
@@ -26,7 +26,7 @@ class Ctx:
         key = (order, count, nphi, shear)
         if key not in self._objs:
             out = []
-            for c, _ in inputs.cases(self.seed * 1000 + 7 + hash((order, nphi)) % 97, count, order=order, nphi=nphi):
+            for c, _ in inputs.cases(self.seed * 1000 + 7 + zlib.crc32(repr((order, nphi, shear)).encode()) % 97, count, order=order, nphi=nphi):
                 with LogCapture(logging.WARNING) as lc:
                     with Capture() as cap:
                         q = Qsc(**c['kwargs'])
